@@ -126,7 +126,17 @@ pub fn mk_result(q: &Query, v: &View) -> Result<Message, NetError> {
         Ok(m)
     } else {
         let code = if v.head == 1 { ResponseCode::NXDomain } else { ResponseCode::NoError };
-        let mut nr = NoRecords::new(q.clone(), code);
+        // The query embedded in the error is not always the query the entry is cached under: an upstream
+        // negative response without question section carries `Query::root()` (DnsError::from_response), a
+        // CNAME chase ends with the last name asked. The cache key — and the bounds that apply — are those
+        // of the query passed to `insert`. Chosen from the view's own content so that a replay agrees.
+        let pick = v.slots.iter().map(|s| s.tag as u64 + s.ttl as u64).sum::<u64>() % 4;
+        let embedded = match pick {
+            0 => Query::root(),
+            1 => Query::new(q.name.clone(), if q.query_type == RecordType::TXT { RecordType::A } else { RecordType::TXT }),
+            _ => q.clone(),
+        };
+        let mut nr = NoRecords::new(embedded, code);
         let zone = owner.base_name();
         let mut auth: Vec<Record> = vec![];
         let mut ns: Vec<ForwardNSData> = vec![];
